@@ -21,7 +21,7 @@ pub struct World {
     pub locale: u8,      // 0 unset, 1 C, 2 en_US.UTF-8, 3 tr_TR.UTF-8, 4 nonsense
     pub rust_backtrace: u8, // 0 unset, 1 "0", 2 "1", 3 "full"
     pub stdin: u8,       // 0 /dev/null, 1 closed, 2 pipe with pending data, 3 regular file, 4 pty
-    pub stdout: u8,      // 0 file, 1 pipe, 2 /dev/null, 3 closed, 4 socket, 5 pty (raw), 6 pipe without reader (fault worlds only), 7 /dev/full (fault worlds only), 8 regular file opened with O_APPEND
+    pub stdout: u8,      // 0 file, 1 pipe, 2 /dev/null, 3 closed, 4 socket, 5 pty (raw), 6 pipe without reader (fault worlds only), 7 /dev/full (fault worlds only), 8 regular file opened with O_APPEND, 9 open read-only (writes fail with EBADF, which std swallows like a closed descriptor)
     pub stderr: u8,
     pub merged: bool,    // 2>&1 on one open file description (stdout's sink)
     pub decoys: bool,
@@ -35,7 +35,8 @@ pub struct World {
     pub script_mode: u8, // 0 0644 now, 1 0400, 2 0755, 3 0644 with mtime 1970, 4 0644 with mtime 2100
     pub uid: u8,         // 0 as the simulator (root), 1 nobody (65534:65534)
     pub malloc_mode: u8, // allocator behaviour: 0 default, 1 tcache off (freed chunks are not handed straight back), 2 freed/fresh memory filled with a pattern, 3 both
-    pub rlimit: u8,      // resource limits far above what any explored script needs: 0 none, 1 RLIMIT_AS 192 MiB, 2 RLIMIT_AS 1 GiB, 3 RLIMIT_CPU 60 s, 4 RLIMIT_NOFILE 260, 5 RLIMIT_FSIZE 4 MiB, 6 RLIMIT_DATA 128 MiB
+    pub flock: bool,     // an exclusive flock(2) on the script is held by the simulator during the run
+    pub rlimit: u8,      // resource limits far above what any explored script needs: 0 none, 1 RLIMIT_AS 192 MiB, 2 RLIMIT_AS 1 GiB, 3 RLIMIT_CPU 60 s, 4 RLIMIT_NOFILE 260, 5 RLIMIT_FSIZE 64 MiB, 6 RLIMIT_DATA 128 MiB
     // directed dimensions: environment variables / relative files the program was seen asking for
     pub extra_env: Vec<(String, String)>,
     pub extra_files: Vec<(String, String)>,
@@ -44,7 +45,7 @@ pub struct World {
 pub const DIMS: &[&str] = &[
     "rand", "heap_pad", "env_pad", "stack", "malloc_tun", "cwd_name", "rel", "file_name", "spelling", "argv0",
     "env_kind", "locale", "rust_backtrace", "stdin", "stdout", "stderr", "merged", "decoys", "clock", "pid", "extra_env", "extra_files",
-    "env_bytes", "sig", "umask", "fds", "script_mode", "uid", "rlimit", "malloc_mode",
+    "env_bytes", "sig", "umask", "fds", "script_mode", "uid", "rlimit", "malloc_mode", "flock",
 ];
 
 impl World {
@@ -78,6 +79,7 @@ impl World {
             script_mode: 0,
             uid: 0,
             rlimit: 0,
+            flock: false,
             malloc_mode: 0,
             extra_env: vec![],
             extra_files: vec![],
@@ -109,8 +111,9 @@ impl World {
             "uid" => self.uid = 1,
             "rlimit" => self.rlimit = 1 + rng.below(6) as u8,
             "malloc_mode" => self.malloc_mode = 1 + rng.below(3) as u8,
-            "stdout" => self.stdout = [1, 2, 3, 4, 5, 8][rng.usize_below(6)],
-            "stderr" => self.stderr = [1, 2, 3, 4, 5, 8][rng.usize_below(6)],
+            "flock" => self.flock = true,
+            "stdout" => self.stdout = [1, 2, 3, 4, 5, 8, 9][rng.usize_below(7)],
+            "stderr" => self.stderr = [1, 2, 3, 4, 5, 8, 9][rng.usize_below(7)],
             "merged" => self.merged = true,
             "decoys" => self.decoys = true,
             "clock" => {
@@ -156,6 +159,7 @@ impl World {
             "uid" => self.uid = 0,
             "rlimit" => self.rlimit = 0,
             "malloc_mode" => self.malloc_mode = 0,
+            "flock" => self.flock = false,
             "extra_env" => self.extra_env = vec![],
             "extra_files" => self.extra_files = vec![],
             _ => {}
@@ -192,6 +196,7 @@ impl World {
             "uid" => self.uid.to_string(),
             "rlimit" => self.rlimit.to_string(),
             "malloc_mode" => self.malloc_mode.to_string(),
+            "flock" => (self.flock as u8).to_string(),
             "extra_env" => self.extra_env.len().min(3).to_string(),
             "extra_files" => self.extra_files.len().min(3).to_string(),
             _ => String::new(),
@@ -201,12 +206,12 @@ impl World {
     // number of distinct non-reference values `dim_value` can report for dimension d
     pub fn dim_cardinality(d: usize) -> u64 {
         match DIMS[d] {
-            "rand" | "malloc_tun" | "merged" | "decoys" | "uid" => 1,
+            "rand" | "malloc_tun" | "merged" | "decoys" | "uid" | "flock" => 1,
             "heap_pad" | "stack" | "rust_backtrace" | "pid" | "sig" | "umask" | "malloc_mode" => 3,
             "file_name" => 4,
             "env_pad" | "rel" | "argv0" | "env_kind" | "clock" | "fds" => 2,
             "cwd_name" | "locale" | "stdin" | "script_mode" => 4,
-            "stdout" | "stderr" => 6,
+            "stdout" | "stderr" => 7,
             "env_bytes" | "rlimit" => 6,
             "spelling" => 10,
             _ => 0,
@@ -247,7 +252,7 @@ impl World {
         }
         if self.merged {
             // 2>&1: stderr follows stdout's sink; closed/devnull lose the merge
-            if self.stdout == 3 {
+            if self.stdout == 3 || self.stdout == 9 {
                 self.stdout = 0;
             }
             self.stderr = self.stdout;
@@ -264,7 +269,7 @@ impl World {
             "stdin": self.stdin, "stdout": self.stdout, "stderr": self.stderr,
             "merged": self.merged, "decoys": self.decoys,
             "clock": self.clock, "pid": self.pid, "clock_step_ms": self.clock_step_ms,
-            "env_bytes": self.env_bytes, "sig": self.sig, "umask": self.umask, "fds": self.fds, "script_mode": self.script_mode, "uid": self.uid, "rlimit": self.rlimit, "malloc_mode": self.malloc_mode,
+            "env_bytes": self.env_bytes, "sig": self.sig, "umask": self.umask, "fds": self.fds, "script_mode": self.script_mode, "uid": self.uid, "rlimit": self.rlimit, "malloc_mode": self.malloc_mode, "flock": self.flock,
             "extra_env": self.extra_env.iter().map(|(k, v)| json!([k, v])).collect::<Vec<_>>(),
             "extra_files": self.extra_files.iter().map(|(k, v)| json!([k, v])).collect::<Vec<_>>(),
         })
@@ -307,6 +312,7 @@ impl World {
         w.uid = u("uid").unwrap_or(0) as u8;
         w.rlimit = u("rlimit").unwrap_or(0) as u8;
         w.malloc_mode = u("malloc_mode").unwrap_or(0) as u8;
+        w.flock = b("flock").unwrap_or(false);
         let pairs = |k: &str| -> Vec<(String, String)> {
             j.get(k).and_then(J::as_array).map(|a| a.iter().filter_map(|x| Some((x.get(0)?.as_str()?.to_string(), x.get(1)?.as_str()?.to_string()))).collect()).unwrap_or_default()
         };
